@@ -268,3 +268,16 @@ package vers
 // the comparison literal handed to slices.SortFunc in normalizeConstraints: stars first, then by version
 //@ func normalizeConstraints$2
 //@   ensures result == (a.constraint == "*" ? (b.constraint == "*" ? 0 : -1) : (b.constraint == "*" ? 1 : a.version.Compare(b.version)))   [C16]
+
+// ---- dynamic dispatch of Name(): the ecosystem value a scheme is evaluated with carries the name toRanges switches on
+//@ lemma name-alpine [C04 C17]: ecosystem("alpine").Name() == "alpine"
+//@ lemma name-cargo [C04 C17]: ecosystem("cargo").Name() == "cargo"
+//@ lemma name-debian [C04 C17]: ecosystem("debian").Name() == "debian"
+//@ lemma name-gem [C04 C17]: ecosystem("gem").Name() == "gem"
+//@ lemma name-golang [C04 C17]: ecosystem("golang").Name() == "golang"
+//@ lemma name-maven [C04 C17]: ecosystem("maven").Name() == "maven"
+//@ lemma name-npm [C04 C17]: ecosystem("npm").Name() == "npm"
+//@ lemma name-nuget [C04 C17]: ecosystem("nuget").Name() == "nuget"
+//@ lemma name-pypi [C04 C17]: ecosystem("pypi").Name() == "pypi"
+//@ lemma name-rpm [C04 C17]: ecosystem("rpm").Name() == "rpm"
+//@ lemma name-semver [C04 C17]: ecosystem("semver").Name() == "semver"
